@@ -620,6 +620,21 @@ func genC19Case(t *sim.T, tier string) *c19Case {
 			c.extra = append(c.extra, b)
 		}
 	}
+	// non-canonical but valid serialisations (field order, unknown fields, over-long varints)
+	for i := range c.good {
+		if t.Chance(1, 8) {
+			if nb, d := gen.ReorderWire(t, c.good[i]); d != "" {
+				c.good[i] = nb
+				t.Probe("non-canonical-wire-order")
+			}
+		}
+	}
+	// a good file that carries alerts and no trips at all (it still marks every active trip past)
+	if len(c.good) >= 2 && t.Chance(1, 6) {
+		i := 1 + t.Choose(len(c.good)-1)
+		c.good[i] = alertsOnlyFeed(uint64(gen.Epoch + 4000 + i))
+		t.Probe("alerts-only-good-file")
+	}
 	// size thresholds of the read path: now and then one or two good files are far larger than the rest
 	if len(c.good) > 0 && t.Chance(1, 10) {
 		for k := t.Range(1, 2); k > 0; k-- {
@@ -685,6 +700,16 @@ func genC19Case(t *sim.T, tier string) *c19Case {
 		c.entries = append(c.entries, e)
 	}
 	return c
+}
+
+// alertsOnlyFeed is a valid message with one route alert and no trip or vehicle entity.
+func alertsOnlyFeed(ts uint64) []byte {
+	v, id, route, txt, lang := "1.0", "lmm:alert:only", "L", "Delays on the L", "en"
+	m := &gtfsrt.FeedMessage{Header: &gtfsrt.FeedHeader{GtfsRealtimeVersion: &v, Timestamp: &ts}, Entity: []*gtfsrt.FeedEntity{{Id: &id, Alert: &gtfsrt.Alert{
+		InformedEntity: []*gtfsrt.EntitySelector{{RouteId: &route}},
+		HeaderText:     &gtfsrt.TranslatedString{Translation: []*gtfsrt.TranslatedString_Translation{{Text: &txt, Language: &lang}}},
+	}}}}
+	return gen.MarshalFeed(m)
 }
 
 // bloatFeed appends an alert entity with a long description to a serialised feed (protobuf messages
